@@ -4,6 +4,9 @@
 #     (selftest/<prop>/*.diff and seeded/*/patch.diff) is applied to a scratch copy, compiled and analysed;
 #     the number tried / detected / missed goes into the evidence (a missed variant is a weakness of the
 #     checker, reported as SELFTEST-MISSED, it is not a violation of the property on /repo);
+#  1b. the other direction: every recorded behaviour-preserving refactoring of /repo (refactors/*.diff) is
+#     applied to a scratch copy and this property's check must stay silent on it; silent / alarmed counts go
+#     into the evidence (an alarm there is a false alarm of the checker, reported as REFACTEST-FALSE-ALARM);
 #  2. the property's rules on /repo's current tree, with the thorough-only rules enabled (C01: ATN decode).
 # Exit code and VIOLATION lines come from step 2 only.
 prop=$1
@@ -16,4 +19,11 @@ missed=$(echo "$out" | grep -E '^(MISSED|SELFTEST-BROKEN)' | awk '{print $2}' | 
 echo "$out" | grep -E '^(MISSED|SELFTEST-BROKEN)' | sed 's/^/SELFTEST-/' 
 echo "selftest $prop: variants=${tried:-0} detected=${det:-0} missed=[${missed}]"
 export GVERIF_SELFTEST="{\"variants_tried\": ${tried:-0}, \"variants_detected\": ${det:-0}, \"missed\": \"${missed}\", \"what\": \"single-edit variants of /repo (compiling, suite-passing by construction or verified) applied to a scratch copy; detected = the property's check exits 1 with a VIOLATION on the variant\"}"
+rout=$(tools/refactest.sh --prop $prop 2>&1)
+rn=$(echo "$rout" | sed -n 's/^refactest: refactorings=\([0-9]*\) silent=\([0-9]*\)$/\1/p')
+rs=$(echo "$rout" | sed -n 's/^refactest: refactorings=\([0-9]*\) silent=\([0-9]*\)$/\2/p')
+ralarm=$(echo "$rout" | grep -E '^(FALSE-ALARM|REFACTEST-BROKEN)' | awk '{print $2}' | tr -d ':' | tr '\n' ' ')
+echo "$rout" | grep -E '^(FALSE-ALARM|REFACTEST-BROKEN)' | sed 's/^/REFACTEST-/'
+echo "refactest $prop: refactorings=${rn:-0} silent=${rs:-0} alarmed=[${ralarm}]"
+export GVERIF_REFACTEST="{\"refactorings_tried\": ${rn:-0}, \"silent\": ${rs:-0}, \"alarmed\": \"${ralarm}\", \"what\": \"behaviour-preserving refactorings of /repo written by independent sub-agents (compile, pinned suite passes), applied to a scratch copy; silent = this property's check exits 0 on the refactored copy\"}"
 exec bin/gverif check $prop --tier thorough
